@@ -1265,6 +1265,8 @@ import (
 	"time"
 
 	ctok "github.com/pip-services3-gox/pip-services3-expressions-gox/calculator/tokenizers"
+	"github.com/pip-services3-gox/pip-services3-expressions-gox/csv"
+	mtok "github.com/pip-services3-gox/pip-services3-expressions-gox/mustache/tokenizers"
 	"github.com/pip-services3-gox/pip-services3-expressions-gox/tokenizers"
 	"github.com/pip-services3-gox/pip-services3-expressions-gox/tokenizers/generic"
 )
@@ -1296,6 +1298,8 @@ func TestVerifReplay(t *testing.T) {
 	mks := map[string]func() tokenizers.ITokenizer{
 		"generic": func() tokenizers.ITokenizer { return generic.NewGenericTokenizer() },
 		"expression": func() tokenizers.ITokenizer { return ctok.NewExpressionTokenizer() },
+		"csv": func() tokenizers.ITokenizer { return csv.NewCsvTokenizer() },
+		"mustache": func() tokenizers.ITokenizer { return mtok.NewMustacheTokenizer() },
 	}
 	alphabet := []rune{'a', '1', ' ', '\\t', '"', '/', '*', '.', 0x1F600, '\\n', '<'}
 	var inputs []string
@@ -1303,7 +1307,7 @@ func TestVerifReplay(t *testing.T) {
 	var gen func(cur []rune, n int)
 	gen = func(cur []rune, n int) { inputs = append(inputs, string(cur)); if n == 0 { return }; for _, c := range alphabet { gen(append(cur, c), n-1) } }
 	gen(nil, %(maxlen)d)
-	inputs = append(inputs, "1 /*c*/ 2", "a /*c*/ /*d*/  b", "1\\U0001F600\\U0001F600 2", "'x' \\"y\\" 1.5 2", "a  /*c*/  b 'q''r'")
+	inputs = append(inputs, "1 /*c*/ 2", "a /*c*/ /*d*/  b", "1\\U0001F600\\U0001F600 2", "'x' \\"y\\" 1.5 2", "a  /*c*/  b 'q''r'", "1 /** d **/ 2 /***/ 3", "a /* x **/ b */ c", "'' + \\"\\" 1", "a{{\\U00010000a}} b", "x \\"}}\\" y")
 	for name, mk := range mks {
 		quoteState := mk().QuoteState()
 		for _, in := range inputs {
@@ -1341,7 +1345,7 @@ func TestVerifReplay(t *testing.T) {
 
 
 @family(r'/tokenizers\.AbstractTokenizer\)\.')
-class OptionsFamily(TokenizerFamily):
+class OptionsFamily(TokenizerFamily):  # generic, expression, csv and mustache tokenizers
     def test_source(self, vals):
         n = vals.get('n', 0)
         extra = ''
